@@ -152,14 +152,14 @@ Definition enter_pay (l : tlocal) (c old : N) : tlocal * list pc :=
   end.
 
 (** Frames that drop a guard [(p, d)]. *)
-Definition guard_drop_frames (p : N) (d : option loc) : list pc :=
+Definition guard_drop_frames (p : N) (d : option slot) : list pc :=
   match d with
   | Some sl => [GD1 p sl]
   | None => if p =? 0 then [] else [PDec p RUnit]
   end.
 
 (** Frames of [Guard::into_inner (p, d)]; empty = returns [ROwned p] at once. *)
-Definition guard_into_frames (p : N) (d : option loc) : list pc :=
+Definition guard_into_frames (p : N) (d : option slot) : list pc :=
   match d with
   | Some sl => if p =? 0 then [GI2 p sl] else [GI1 p sl]
   | None => []
@@ -241,7 +241,7 @@ Definition exec (cf : config) (s : shared) (l : tlocal) (p : pc) (x : N)
       else (s', tl_set_off l (j + 1), [e], NGoto (LA4 c v j))
   | LA4 c v j =>
       let '(u, e) := a_load s (LStore c) o_attempt_confirm in
-      if u =? v then let '(l', nx) := with_exit l (RGuard v (Some (LSlot n j))) in (s, l', [e], nx)
+      if u =? v then let '(l', nx) := with_exit l (RGuard v (Some (n, j))) in (s, l', [e], nx)
       else (s, l, [e], NGoto (LA5 c v j))
   | LA5 c v j =>
       let '(s', _, ok, e) := a_cas s (LSlot n j) v NONE o_pay false false in
@@ -319,7 +319,7 @@ Definition exec (cf : config) (s : shared) (l : tlocal) (p : pc) (x : N)
       end
   (* ---- guard drop / into_inner ---- *)
   | GD1 v sl =>
-      let '(s', _, ok, e) := a_cas s sl v NONE o_pay false false in
+      let '(s', _, ok, e) := a_cas s (slot_loc sl) v NONE o_pay false false in
       (s', l, [e], if ok then NRet RUnit else dec_then v RUnit)
   | GI1 v sl =>
       match rc_inc s v with
@@ -327,7 +327,7 @@ Definition exec (cf : config) (s : shared) (l : tlocal) (p : pc) (x : N)
       | Some (s', evs) => (s', l, evs, NGoto (GI2 v sl))
       end
   | GI2 v sl =>
-      let '(s', _, ok, e) := a_cas s sl v NONE o_pay false false in
+      let '(s', _, ok, e) := a_cas s (slot_loc sl) v NONE o_pay false false in
       (s', l, [e], if ok then NRet (ROwned v) else dec_then v (ROwned v))
   (* ---- pay_all ---- *)
   | P1 c old =>
